@@ -80,6 +80,10 @@ MUTANTS = [
     ("looked up in the deepest level only", "AegeanTools/regions.py",
      "        pixelset = self.get_demoted()\n        result = np.isin(",
      "        pixelset = self.pixeldict[self.maxdepth]\n        result = np.isin(", "C09-R6"),
+    ("poles masked as undefined (seed C09c)", "AegeanTools/regions.py",
+     "        theta_phi[mask, :] = 0\n",
+     "        mask |= (theta_phi[:, 0] <= 0) | (theta_phi[:, 0] >= np.pi)\n"
+     "        theta_phi[mask, :] = 0\n", "C09-R3"),
 ]
 TWINS = [
     ("colatitude via variable", "AegeanTools/regions.py",
@@ -156,56 +160,7 @@ def run(ctx):
     from .c08 import demotion_levels
     demotion_levels(ctx, ci, "C09-R5")
     # ---------------------------------------------------------------- R3
-    ctx.rule("C09-R3", "non-finite positions: mask from isfinite of the "
-             "converted coordinates; result[mask] = False is the last "
-             "writer of the result before the return")
-    sw = ci.methods.get("sky_within")
-    if sw is None:
-        raise AnalysisError("Region.sky_within missing")
-    g = CFG(sw.node)
-    rets = [nn for nn, s in g.stmt.items() if g.kind[nn] == "return"]
-    if len(rets) != 1:
-        raise AnalysisError("C09-R3: sky_within return sites")
-    rname = norm(g.stmt[rets[0]].value)
-    writers = [nn for nn, s in g.stmt.items() if g.kind[nn] == "stmt" and
-               isinstance(s, ast.Assign) and any(
-                   norm(t) == rname or (isinstance(t, ast.Subscript) and
-                                        norm(t.value) == rname)
-                   for t in s.targets)]
-    forced = [nn for nn in writers
-              if isinstance(g.stmt[nn].targets[0], ast.Subscript) and
-              norm(g.stmt[nn].value) == "False"]
-    ok = len(forced) == 1 and all(
-        g.dominates(w, forced[0]) for w in writers) and \
-        g.path_avoiding(ENTRY, rets[0], forced) is None
-    ctx.check("C09-R3", sw, "last writer of the result", ok,
-              "positions with non-finite coordinates must be forced to False "
-              "after the membership test on every path (they were mapped to "
-              "pixel 0 for the look-up and would otherwise be reported "
-              "inside whenever pixel 0 is in the region)",
-              node=g.stmt[forced[0]] if forced else sw.node)
-    if forced:
-        mname = norm(g.stmt[forced[0]].targets[0].slice)
-        mdef = [s for s in walk_no_nested(sw.node) if isinstance(s, ast.Assign)
-                and norm(s.targets[0]) == mname]
-        if len(mdef) == 1:
-            from .c08 import _resolve_local
-
-            class _R(ast.NodeTransformer):
-                def visit_Name(self, nd):
-                    r = _resolve_local(sw.node, nd)
-                    return r if r is not nd and isinstance(
-                        nd.ctx, ast.Load) else nd
-            import copy as _copy
-            mdef = [ast.fix_missing_locations(
-                _R().visit(_copy.deepcopy(mdef[0])))]
-        okm = len(mdef) == 1 and "isfinite" in norm(mdef[0].value) and (
-            "bitwise_not" in norm(mdef[0].value) or
-            "logical_not" in norm(mdef[0].value) or "~" in norm(mdef[0].value))
-        ctx.check("C09-R3", sw, "mask definition " + norm(mdef[0], 80)
-                  if mdef else "mask definition", okm,
-                  "the mask must flag rows where any coordinate is not "
-                  "finite", node=mdef[0] if mdef else sw.node)
+    sw, g, rets, rname = nonfinite_rule(ctx, prog, ci, "C09-R3")
     # ---------------------------------------------------------------- R6
     ctx.rule("C09-R6", "membership test: the result is an element-wise "
              "look-up of the queried pixel numbers (healpy.ang2pix at nside "
@@ -318,3 +273,135 @@ def two_column_rule(ctx, rule, r2s):
                           "an empty table / testing an empty position list "
                           "fails instead of returning an empty result",
                           node=s)
+
+
+def nonfinite_rule(ctx, prog, ci, rule):
+    """positions with non-finite coordinates are never inside (shared by
+    C09-R3 and C10-R8); returns (sw, g, rets, rname) for the caller"""
+    ctx.rule(rule, "non-finite positions: mask from isfinite of the "
+             "converted coordinates; result[mask] = False is the last "
+             "writer of the result before the return")
+    sw = ci.methods.get("sky_within")
+    if sw is None:
+        raise AnalysisError("Region.sky_within missing")
+    g = CFG(sw.node)
+    rets = [nn for nn, s in g.stmt.items() if g.kind[nn] == "return"]
+    if len(rets) != 1:
+        raise AnalysisError(rule + ": sky_within return sites")
+    rname = norm(g.stmt[rets[0]].value)
+    writers = [nn for nn, s in g.stmt.items() if g.kind[nn] == "stmt" and
+               isinstance(s, ast.Assign) and any(
+                   norm(t) == rname or (isinstance(t, ast.Subscript) and
+                                        norm(t.value) == rname)
+                   for t in s.targets)]
+    forced = [nn for nn in writers
+              if isinstance(g.stmt[nn].targets[0], ast.Subscript) and
+              norm(g.stmt[nn].value) == "False"]
+    ok = len(forced) == 1 and all(
+        g.dominates(w, forced[0]) for w in writers) and \
+        g.path_avoiding(ENTRY, rets[0], forced) is None
+    ctx.check(rule, sw, "last writer of the result", ok,
+              "positions with non-finite coordinates must be forced to False "
+              "after the membership test on every path (they were mapped to "
+              "pixel 0 for the look-up and would otherwise be reported "
+              "inside whenever pixel 0 is in the region)",
+              node=g.stmt[forced[0]] if forced else sw.node)
+    if forced:
+        mname = norm(g.stmt[forced[0]].targets[0].slice)
+        mdef = [s for s in walk_no_nested(sw.node) if isinstance(s, ast.Assign)
+                and norm(s.targets[0]) == mname]
+        if len(mdef) == 1:
+            from .c08 import _resolve_local
+
+            class _R(ast.NodeTransformer):
+                def visit_Name(self, nd):
+                    r = _resolve_local(sw.node, nd)
+                    return r if r is not nd and isinstance(
+                        nd.ctx, ast.Load) else nd
+            import copy as _copy
+            mdef = [ast.fix_missing_locations(
+                _R().visit(_copy.deepcopy(mdef[0])))]
+        okm = len(mdef) == 1 and "isfinite" in norm(mdef[0].value) and (
+            "bitwise_not" in norm(mdef[0].value) or
+            "logical_not" in norm(mdef[0].value) or "~" in norm(mdef[0].value))
+        ctx.check(rule, sw, "mask definition " + norm(mdef[0], 80)
+                  if mdef else "mask definition", okm,
+                  "the mask must flag rows where any coordinate is not "
+                  "finite", node=mdef[0] if mdef else sw.node)
+    # the mask is EXACTLY the non-finite mask: no other writer widens it
+    if forced:
+        others = []
+        for s_ in walk_no_nested(sw.node):
+            tg = []
+            if isinstance(s_, ast.AugAssign):
+                tg = [s_.target]
+            elif isinstance(s_, ast.Assign):
+                tg = s_.targets
+            for t in tg:
+                base = t
+                while isinstance(base, ast.Subscript):
+                    base = base.value
+                if norm(base) == mname and not (
+                        isinstance(s_, ast.Assign) and t is s_.targets[0]
+                        and isinstance(t, ast.Name) and
+                        len([d for d in walk_no_nested(sw.node)
+                             if isinstance(d, ast.Assign) and
+                             norm(d.targets[0]) == mname]) == 1):
+                    others.append(s_)
+        ctx.check(rule, sw, "the mask has no other writer", not others,
+                  "the mask of undefined positions is widened by %s: "
+                  "positions with perfectly finite coordinates (e.g. exactly "
+                  "at a pole, colatitude 0 or pi) are forced to 'outside'" %
+                  [norm(o, 70) for o in others],
+                  node=others[0] if others else sw.node)
+    # non-finite inputs must still be non-finite where the mask is taken:
+    # nothing on the way (radec2sky, sky2ang, the head of sky_within)
+    # replaces NaN / inf by numbers
+    n_prop = 0
+    first_mask_line = min([d.lineno for d in walk_no_nested(sw.node)
+                           if isinstance(d, ast.Assign) and forced and
+                           norm(d.targets[0]) == mname] or [10 ** 9])
+    for m_ in ("radec2sky", "sky2ang", "sky_within"):
+        fi = ci.methods.get(m_)
+        if fi is None:
+            continue
+        n_prop += 1
+        bad = []
+        for x in walk_no_nested(fi.node):
+            if m_ == "sky_within" and getattr(x, "lineno", 0) >= \
+                    first_mask_line:
+                continue
+            if isinstance(x, ast.Call) and norm(x.func) in (
+                    "np.nan_to_num", "numpy.nan_to_num"):
+                bad.append(x)
+            if isinstance(x, (ast.Assign, ast.AugAssign)):
+                tgs = x.targets if isinstance(x, ast.Assign) else [x.target]
+                for t in tgs:
+                    if isinstance(t, ast.Subscript) and any(
+                            isinstance(c, ast.Call) and norm(c.func) in (
+                                "np.isfinite", "np.isnan", "np.isinf",
+                                "numpy.isfinite", "numpy.isnan",
+                                "numpy.isinf")
+                            for c in ast.walk(t.slice)):
+                        bad.append(x)
+                    elif isinstance(t, ast.Subscript):
+                        # x[m] = c with m a local non-finite mask
+                        for nm in names_in(t.slice):
+                            d_ = [d for d in walk_no_nested(fi.node)
+                                  if isinstance(d, ast.Assign) and
+                                  norm(d.targets[0]) == nm and any(
+                                      isinstance(c, ast.Call) and
+                                      norm(c.func) in ("np.isfinite",
+                                                       "np.isnan")
+                                      for c in ast.walk(d.value))]
+                            if d_:
+                                bad.append(x)
+        ctx.check(rule, fi, "non-finite values survive " + m_, not bad,
+                  "%s replaces non-finite coordinates by numbers before "
+                  "sky_within takes its mask of undefined positions: the "
+                  "mask is then empty and a NaN position is looked up as a "
+                  "real one (the pole / RA 0) and can be reported inside" %
+                  [norm(b_, 60) for b_ in bad[:2]],
+                  node=bad[0] if bad else fi.node)
+    ctx.floor(rule, n_prop, 3, "functions on the way to the non-finite mask")
+    return sw, g, rets, rname
